@@ -176,6 +176,16 @@ func runC02(c *Ctx) {
 				}
 				fc.frags = append(fc.frags, w)
 			}
+			// any 16-bit group identifier could have been drawn: relabel some transfers with the boundary
+			// identifiers (0 is a legal group)
+			if g2 := []uint16{0, 0, 1, 0xFFFF, 0x8000}[r.Intn(5)]; r.Chance(25) && !used[g2] {
+				used[g2] = true
+				for _, w := range fc.frags {
+					w.Flags.SetGroup(g2)
+				}
+				fc.g = g2
+				c.Count(fmt.Sprintf("group-relabelled:%#x", g2))
+			}
 			cases = append(cases, fc)
 		}
 		// arrival order
@@ -240,7 +250,28 @@ func runC02(c *Ctx) {
 		rcv, msgr := c2.VerifC02NewSession(devB, r.Bool(), 256)
 		var arrToks, outs []string
 		delivered := make([][]*com.Packet, len(cases))
-		for _, a := range order {
+		// wake-ups of the receiver between arrivals (one fragment per wake-up is the normal rhythm):
+		// markSweepFrags runs, but never often enough in a row to let a group in flight expire
+		miss := make([]int, len(cases))
+		started := make([]bool, len(cases))
+		for ai, a := range order {
+			if ai > 0 && r.Chance(45) {
+				ok := true
+				for gi := range cases {
+					if started[gi] && miss[gi]+2 >= c2.VerifC02FragMaxMisses {
+						ok = false
+					}
+				}
+				if ok {
+					rcv.VerifC02Sweep()
+					arrToks, outs = append(arrToks, "sweep"), append(outs, "swept")
+					for gi := range cases {
+						miss[gi]++
+					}
+					c.Count("sweep-between-arrivals")
+				}
+			}
+			started[a.gi], miss[a.gi] = true, 0
 			arrToks = append(arrToks, pktTok(a.f))
 			before := len(msgr.Evs)
 			cp, _ := wireCopy(a.f) // receive consumes / clears packets
